@@ -5,7 +5,7 @@ Record bcase := {
   bc_step : N; bc_limit : N;
   bc_events : list ev;
   bc_n : nat;
-  bc_off : nat; bc_suf : nat;          (* the held string is frame[off .. len - suf) *)
+  bc_offs : list nat; bc_suf : nat;    (* per delivered frame: the held string is frame[off .. len - suf) *)
   bc_notes : list (list byte);         (* per delivered frame: the string as sent ([] when not held) *)
   bc_mask : list bool;                 (* per delivered frame: the implementation holds a string of it
                                           (false: a receive before the chain, an error reply, ...) *)
@@ -13,8 +13,14 @@ Record bcase := {
   bc_reads : list bool                 (* implementation: a transport read returned data during this item *)
 }.
 
-Definition note_of (c : bcase) (v : list byte) : list byte :=
-  firstn (length v - bc_off c - bc_suf c) (skipn (bc_off c) v).
+Definition note_at (suf off : nat) (v : list byte) : list byte :=
+  firstn (length v - off - suf) (skipn off v).
+
+Fixpoint notes_of (suf : nat) (offs : list nat) (vs : list (list byte)) : list (list byte) :=
+  match offs, vs with
+  | o :: offs', v :: vs' => note_at suf o v :: notes_of suf offs' vs'
+  | _, _ => []
+  end.
 
 Definition bmodel (c : bcase) :=
   run_hold (bc_step c) (bc_limit c) N (fun _ => 0%N) (bc_n c)
@@ -42,7 +48,7 @@ Definition known (reads : list bool) : bool := existsb (fun b => b) (tl reads).
 Definition check (c : bcase) : N :=
   let m := bmodel c in
   let m := firstn (length (bc_views c)) m in
-  let mviews := map (fun x => map (note_of c) (select (bc_mask c) (snd x))) m in
+  let mviews := map (fun x => select (bc_mask c) (notes_of (bc_suf c) (bc_offs c) (snd x))) m in
   let mreads := map (fun x => snd (fst x)) m in
   let spec := map (select (bc_mask c)) (prefixes (length (bc_views c)) (bc_notes c)) in
   let changed := negb (nnn_eqb spec (bc_views c)) in
